@@ -84,17 +84,20 @@ PROPS = {
     "C10": dict(
         level="fault_enumeration",
         rule=("one plan = one generated nest of frames (def, lambda, method, bind, for_each/map callback, attribute-held function, C++ "
-              "std::function trampoline), wrappers (block, if, for, while, switch, ranged for) and <=3 try statements with 0..3 typed/untyped "
+              "std::function trampoline, guarded overload behind a rejecting guard, typed overload behind overloads of other arity/type), wrappers (block, if, for, while, switch, ranged for) and <=3 try statements with 0..3 typed/untyped "
               "catch clauses and optional finally (catch/finally bodies may throw themselves). EVERY leaf of the nest in turn is the throw site "
-              "x EVERY thrown kind (10) x {no exception_specification, <int,string>} (specification only for script-thrown values), each on a "
+              "x EVERY thrown kind (20: script int/string/bool/double/object/runtime_error, failed dispatch, five C++ throws from a registered function, "
+              "errors and throws inside nested script-level eval(string)/eval(parse(string)), a throwing guard, a call all guards reject) x {no "
+              "exception_specification, <int,string,bool,double>} (specification only for script-thrown values), each on a "
               "fresh engine. evaluations = individual executions; each (nest, site, kind, spec) is a distinct non-trivial case. Oracle: "
               "reference interpreter of try/catch/finally (DESIGN.md appendix B) predicting the exact t() trace and how the exception leaves eval."),
         real_vs_stub=REAL,
         assumptions=COMMON_ASSUME + ["throw sites and kinds are exhaustive per nest; nests are sampled",
                                      "C++ exceptions that cannot be boxed (user class, int) bypass script catch clauses, run finally blocks and leave with their own type, as the code documents",
-                                     "guarded catch clauses (catch(e) : cond) are not generated"],
+                                     "the grammar has no guarded catch clauses (the 3-child branch of handle_exception is unreachable from parsed code)"],
         expected_probes=["probe_no_clause_matched", "probe_try_finally_without_catch", "probe_catch_block_threw", "probe_finally_ran_while_unwinding",
-                         "probe_earlier_clause_skipped", "probe_unrepresentable_bypassed_clauses", "probe_caught_typed", "probe_caught_object_thrown_again"],
+                         "probe_earlier_clause_skipped", "probe_unrepresentable_bypassed_clauses", "probe_caught_typed", "probe_caught_object_thrown_again",
+                         "probe_caught_without_variable", "fault_throw_nested_eval_parse_error", "fault_throw_guard_throws"],
         **two(40, 420,
               {"plain": {"workers": 10}, "asan": {"workers": 6}},
               {"plain": {"workers": 10}, "asan": {"workers": 6}}),
